@@ -2,7 +2,8 @@
 # tools/seedmatrix_par.sh [tier] [workers] ['seed-glob seed-glob ...'] — every seeded change against the check of
 # its own property (and against the checks named in its meta.json), in parallel: each worker
 # has its own scratch worktree of /repo (VERIF_REPO) and its own copy of /verif, so /repo and
-# /verif/evidence are not touched. Writes /verif/seeded/MATRIX.txt. Scratch under /tmp is removed.
+# /verif/evidence are not touched. Writes /verif/seeded/MATRIX.txt (or $MATRIX_OUT); VERIF_SEED is passed on.
+# Scratch under /tmp is removed.
 cd "$(dirname "$0")/.."
 TIER=${1:-quick}; NW=${2:-4}; GLOB=${3:-C*}
 V=$(pwd)
@@ -35,7 +36,7 @@ worker() {
 }
 for w in $(seq 1 $NW); do worker $w & done
 wait
-out=seeded/MATRIX.txt
+out=${MATRIX_OUT:-seeded/MATRIX.txt}
 [ "$GLOB" = "C*" ] && : > $out
 for sid in $SEEDS; do
   line="$sid:"
